@@ -668,3 +668,11 @@ PLAN["C07"]["jobs"] = PLAN["C07"]["jobs"] + OBJECT_V
 PLAN["C08"]["jobs"] = PLAN["C08"]["jobs"] + OBJECT_M
 PLAN["C15"]["jobs"] = PLAN["C15"]["jobs"] + OBJECT_V + OBJECT_M
 PLAN["C19"]["jobs"] = PLAN["C19"]["jobs"] + OBJECT_V + OBJECT_M
+
+# results with more than 2^32 calls: variance() / error() (C02's formulas for every N >= 2)
+PLAN["C02"]["jobs"] = PLAN["C02"]["jobs"] + only(HELPER_JOBS, lambda j: j["cfg"]["ob"] == 4)
+# first grid / weights after rollbacks of a reloaded checkpoint (C19: the first iteration uses the user's or the default state)
+PLAN["C19"]["jobs"] = PLAN["C19"]["jobs"] + only(ROLLBACK_JOBS, lambda j: j["cfg"].get("text") == 1 and j["cfg"]["n"] == 2 and j["cfg"]["alg"] in (1, 2)
+                                                  and "quick" in j["tiers"] and not j["cfg"].get("other"))
+OBJECT_P = [S("h_driver", drv(11, 0), ["object.rollback_beyond_the_last_iteration_of_an_empty"])]
+PLAN["C15"]["jobs"] = PLAN["C15"]["jobs"] + OBJECT_P
